@@ -93,7 +93,7 @@ def layer_a_units(tier):
     if tier == "thorough":
         for ne, ng in ((3, 2), (2, 3)):
             u += [dict(layer="A", ne=ne, ng=ng, family="orders", labels="reduced", chunk=[k, 48]) for k in range(48)]
-            u += [dict(layer="A", ne=ne, ng=ng, family="lowhigh", labels="full", chunk=[k, 64]) for k in range(64)]
+            u += [dict(layer="A", ne=ne, ng=ng, family="lowhigh", labels="full_est", chunk=[k, 64]) for k in range(64)]
         u += [dict(layer="A", ne=3, ng=3, family="lowhigh", labels="two", chunk=[k, 128]) for k in range(128)]
         u += [dict(layer="A", ne=4, ng=3, family="lowhigh", labels="one", chunk=[k, 128]) for k in range(128)]
     return u
@@ -108,6 +108,9 @@ def layer_a_cases(unit):
     if unit["labels"] == "full":
         els = list(itertools.product(LAB3, repeat=ne))
         gls = list(itertools.product(GLAB3 if ne * ng > 2 else GLAB3 + ("UNKNOWN",), repeat=ng))
+    elif unit["labels"] == "full_est":   # every estimate label vector, ground-truth labels from the reduced menu
+        els = list(itertools.product(LAB3, repeat=ne))
+        gls = sorted(set(REDUCED_G3 if ng == 3 else [g[:ng] for g in REDUCED_G2]))
     elif unit["labels"] == "reduced":
         els = REDUCED_E3 if ne == 3 else [e[:ne] for e in REDUCED_E2]
         gls = REDUCED_G3 if ng == 3 else [g[:ng] for g in REDUCED_G2]
@@ -281,7 +284,7 @@ def cases_of(unit, seed):
 def bounds(tier, seed):
     return {"layer_A": "centre-distance tables realised by trilateration: all strict orders for <=2x2 (and 3x1/1x3) with "
                        "labels est{car,ped,unknown}^|E| x gt{car,ped,fp}^|G|; 3x2/2x3 all 64 low/high tables (reduced labels)"
-                       + ("; thorough: 3x2/2x3 all 720 strict orders (reduced labels) and 64 low/high tables (all labels), 3x3 all 512 "
+                       + ("; thorough: 3x2/2x3 all 720 strict orders (reduced labels) and 64 low/high tables (all estimate labels), 3x3 all 512 "
                           "low/high tables (two labels per side), 4x3 all 4096 low/high tables (2x2 label vectors)" if tier == "thorough" else ""),
             "layer_B": "ordered sub-lists of size <= %d from pools of 6 estimates / 6 ground truths, 4 modes" % (2 if tier == "quick" else 3),
             "layer_C": "ROI objects over two cameras, est <= 2, gt <= %d, 2 modes" % (2 if tier == "quick" else 3),
